@@ -168,7 +168,12 @@ def invalidate_attrs(
         if invalidatee == attr:
             continue
         try:
-            delattr(obj, invalidatee)
+            if obj.__spec_class__.frozen:
+                # The mutation that triggered this invalidation has already
+                # been authorised (it acts on a private copy, or is forced).
+                obj.__delattr__(invalidatee, force=True)
+            else:
+                delattr(obj, invalidatee)
         except AttributeError:
             # Nothing is stored for `invalidatee` itself, but attributes that
             # depend on it may still hold values derived from the old state.
